@@ -235,7 +235,16 @@ def add_between(rng, c):
 NORM_DTYPES = ['bool', 'uint8', 'int32', 'int64', 'float32', 'float64']
 
 
-def gen_norm(rng, tier):
+def gen_norm(rng, tier, kind=None):
+    if kind or rng.random() < 0.1:  # calls whose result is not finite: zero power (0/0, p/0) or a negative target
+        m, n = rng.randint(1, 4), rng.randint(1, 4)
+        kind = kind or rng.choice(['zero', 'zero', 'negative', 'both', 'fine'])
+        vals = [0, 1, -1, 2, 0.5]
+        a = [[[0, 0] if kind in ('zero', 'both') else [rng.choice(vals), rng.choice(vals)] for _ in range(n)] for _ in range(m)]
+        if kind in ('negative', 'fine') and not any(v[0] or v[1] for row in a for v in row):
+            a[0][0] = [1, 0]
+        p = rng.choice(['-1', '-1/2', '-3']) if kind in ('negative', 'both') else rng.choice(['0', '1', '2', '1/2'])
+        return {'op': 'normalize', 'a': a, 'power': p, 'checked': kind}
     if rng.random() < 0.35:        # aperture masks / amplitudes of every array dtype a caller may hold them in
         dt = rng.choice(NORM_DTYPES)
         big = dt in ('bool', 'uint8') and rng.random() < 0.5
@@ -475,6 +484,8 @@ def generate(rng, tier):
     n_cases = 110 if tier == 'quick' else 1500
     for _ in range(25 if tier == 'quick' else 250):
         yield gen_planehist(rng)
+    for k in range(16 if tier == 'quick' else 160):
+        yield gen_norm(rng, tier, kind=['zero', 'negative', 'both', 'fine'][k % 4])
     out = 0
     while out < (30 if tier == 'quick' else 300):
         c = gen_segtilt(rng)
@@ -554,7 +565,7 @@ def classify(c):
                                       '/history' if c.get('between') else '') + ('/segmented' if c.get('seg') else '') \
             + ('/scaled' if c.get('ampscale') else '') + ('/' + c['container'] if c.get('container') else '') \
             + ('/relay' if c.get('relay') else '')
-    return c['op'] + ('/' + c['dtype'] if c.get('dtype') else '')
+    return c['op'] + ('/' + c['dtype'] if c.get('dtype') else '') + ('/finite?' + c['checked'] if c.get('checked') else '')
 
 
 def nontrivial(c):
@@ -621,13 +632,16 @@ def encode(c):
         return out
     if c['op'] == 'normalize':
         a = c['a']
-        out = [2, 1, len(a), len(a[0])]
+        out = [3 if c.get('checked') else 2, 1, len(a), len(a[0])]
         tot = Fraction(0)
         for row in a:
             for v in row:
                 out += C.enc_c((Fraction(v[0]), Fraction(v[1])))
                 tot += Fraction(v[0]) ** 2 + Fraction(v[1]) ** 2
         p = Fraction(c['power'])
+        if c.get('checked'):
+            root = supplied_root(p / tot) if tot > 0 and p >= 0 else Fraction(1)
+            return out + C.enc_q(p) + C.enc_q(root)
         return out + C.enc_q(p) + C.enc_q(supplied_root(p / tot))
     return None
 
@@ -655,6 +669,15 @@ def decode(c, ints):
             s = supplied_root(Fraction(c['power']) / amp_total(c))
             res['root_ok'] = bool(root_valid(s, q) and all(co == (0, 0) for co in ratio[1:]) and ratio[0][1] == 0)
         return res
+    if c['op'] == 'normalize' and c.get('checked'):
+        rd = C.Reader(ints, 1)
+        st = rd.z()
+        if st != 0:
+            return {'err': 'model status %d' % st}
+        if rd.z() == 0:
+            return {'finite': False}
+        arr = rd.arr()
+        return {'finite': True, 'arr': [[complex(float(v[0][0]), float(v[0][1])) for v in row] for row in arr]}
     if c['op'] == 'normalize':
         rd = C.Reader(ints, 1)
         st = rd.z()
@@ -928,6 +951,15 @@ def run_impl(c):
                 a = np.array([[v[0] for v in row] for row in c['a']]).astype(getattr(np, c['dtype'] + ('_' if c['dtype'] == 'bool' else '')))
             else:
                 a = np.array([[complex(v[0], v[1]) for v in row] for row in c['a']], dtype=complex)
+            if c.get('checked'):
+                import warnings
+                with warnings.catch_warnings():
+                    warnings.simplefilter('ignore')
+                    with np.errstate(all='ignore'):
+                        b = np.asarray(lentil.normalize_power(a, float(Fraction(c['power']))))
+                fin = bool(np.all(np.isfinite(b)))
+                return {'finite': fin, 'arr': b.tolist() if fin else None,
+                        'power': float(np.sum(np.abs(b) ** 2)) if fin else None}
             b = lentil.normalize_power(a, float(Fraction(c['power'])))
             return {'arr': np.asarray(b).tolist(), 'power': float(np.sum(np.abs(np.asarray(b)) ** 2))}
         dx, du, z, lam = sampling(c)
@@ -1119,6 +1151,12 @@ def compare(c, impl, model):
         return f'implementation raised {impl["err"]}, the model returned a value'
     if model.get('root_ok') is False:
         return 'harness: the supplied square root does not match the ratio power/sum|a|^2 computed by the model'
+    if c['op'] == 'normalize' and c.get('checked'):
+        if impl['finite'] != model['finite']:
+            return (f'normalize_power: the implementation returned {"finite" if impl["finite"] else "inf/nan"} samples, '
+                    f'the model says {"finite" if model["finite"] else "not finite"}')
+        if not impl['finite']:
+            return None
     if c['op'] == 'normalize':
         a = np.asarray(impl['arr'], dtype=complex)
         b = np.asarray(model['arr'], dtype=complex)
@@ -1155,6 +1193,15 @@ def oracle(c, impl):
         return oracle_segtilt(c, impl)
     if c['op'] == 'planehist':
         return oracle_planehist(c, impl)
+    if c['op'] == 'normalize' and c.get('checked'):
+        tot = sum(v[0] ** 2 + v[1] ** 2 for row in c['a'] for v in row)
+        p = float(Fraction(c['power']))
+        if tot > 0 and p >= 0:
+            if not impl['finite']:
+                return f'normalize_power(a, {p}) of an array with power {tot} is not finite'
+            if abs(impl['power'] - p) > 1e-12 * (1 + p):
+                return f'normalize_power(a, {p}) has power {impl["power"]!r}'
+        return None                     # zero power / negative target: the property's premise does not hold
     if c['op'] == 'normalize':
         p = float(Fraction(c['power']))
         if abs(impl['power'] - p) > (1e-6 if c.get('dtype') == 'float32' else 1e-12) * (1 + p):
